@@ -3,8 +3,7 @@ from .common import *
 from gen import legacy as LG
 
 
-def run(tier, only=None):
-    chk = Check('C12', tier)
+def build(tier, only, chk):
     jobs = []
     for b in bindings(only, chk):
         if not b.legacy:
@@ -18,6 +17,12 @@ def run(tier, only=None):
             jobs.append(Job('c12.%s.%s' % (b.fmt, 'be' if be else 'le'), src, srcs, be=be, unwind=70,
                             unwindset=WALKER, meta={'format': b.fmt, 'cases': n, 'buffer_bytes': b.spec_len,
                                                     'domain': 'all buffers x all values'}))
+    return jobs
+
+
+def run(tier, only=None):
+    chk = Check('C12', tier)
+    jobs = build(tier, only, chk)
     chk.run(jobs)
     chk.assumptions = STD_ASSUME + ['avtp_pdu_get/set carry 32-bit values; compared after truncation (all common-header fields are <= 8 bits)']
     return chk.finish(
